@@ -230,11 +230,24 @@ def run(ctx):
                                 is_long = (payload(other[0])[1] == "AddToAmm") == o
                     if tag(at) == "op" and payload(at)[0] == "discr" and ix.inline(kids(at)[0]) == p_dir and isinstance(o, tuple) and o[0] == "variant":
                         is_long = o[1] == "AddToAmm"
+                # is the position known to be empty / non-empty on this path?
+                size_zero = None
+                p_sz = ix.inline(sym.field(pos, "size"))
+                for (k9, x9, o9) in sign_tests(ix, q.conds):
+                    if k9 == "is_zero" and ix.inline(x9) == p_sz:
+                        size_zero = o9
                 if var is None:
+                    # the shortcut that values the position at (0, 0) without asking the vAMM: only for an empty position
+                    if size_zero is not True:
+                        per.setdefault("empty", []).append("a path answers without valuing the position although its size is not known to be zero")
+                    else:
+                        per.setdefault("empty", []).append(None)
                     continue
                 r = sym.unwrap(q.ret)
                 nv = ix.inline(sym.field(r, "position_notional"))
                 bad = None
+                if size_zero is True:
+                    bad = "the position is valued only when its size IS zero: a live position gets notional 0 and pnl 0"
                 if var in want_msg:
                     pq = ix.parse_query(nv)
                     mv = ix.msg_variant(pq["msg"]) if pq else None
@@ -268,6 +281,9 @@ def run(ctx):
                 elif bad is None:
                     bad = "the pnl's sign is not decided by the position's direction on this path"
                 per.setdefault(var, []).append(bad)
+        if "empty" in per:
+            be = [x for x in per["empty"] if x]
+            ctx.inst("R06.8", "valuation:empty-position-shortcut", not be, f.where(), be[0] if be else "%d paths answer (0, 0) unvalued, each with size == 0 established" % len(per["empty"]))
         for var in ("SpotPrice", "Twap", "Oracle"):
             res = per.get(var, [])
             b = [x for x in res if x]
